@@ -2,30 +2,43 @@
    section-3 transformer, operations compose in order, the checker accepts the
    model; untouched graphs, fresh blank nodes, the historical definitions. *)
 From Coq Require Import Arith.
-From RV Require Import Update.Model Update.Proofs Update.Ops.
+From Coq Require Import Permutation.
+From RV Require Import Update.Model Update.Proofs Update.Ops Update.Where.
 Local Open Scope N_scope.
 
 (* one operation is its transformer: every front end, both settings of the switch *)
-Theorem step_correct e k o s a :
+(* operations whose WHERE solutions are given (everything but ModifyW) and that
+   can succeed (everything but CREATE without SILENT) *)
+Definition no_where (o : uop) : bool :=
+  match o with ModifyW _ _ _ _ _ _ | Create false _ => false | _ => true end.
+
+Theorem step_correct e k o s a : no_where o = true ->
   scope e o -> op_kf e k o = 0 -> kinv s -> qseteq (quads s) a -> step_ok e k o s a.
 Proof.
-  intros Hd Hkf Hk Ha.
-  destruct o as [ts qs|ts qs|tm om|w ud un d i om|sl g|sl g|sl x y|sl x y|sl x y].
+  intros Hnw Hd Hkf Hk Ha.
+  destruct o as [ts qs|ts qs|tm om|w ud un d i om|w ud un d i p|sl g|sl g|sl x y|sl x y|sl x y|sl c].
   - apply insert_data_ok; auto.
   - apply delete_data_ok; auto.
   - apply delete_where_ok; auto.
   - apply modify_ok; auto.
+  - discriminate.
   - apply clear_ok; auto.
   - apply drop_ok; auto.
   - apply add_ok; auto.
   - apply move_ok; auto.
   - apply copy_ok; auto.
+  - destruct sl; [|discriminate]. exists s. simpl. auto.
 Qed.
 
-(* the switch is irrelevant to every evaluator *)
-Lemma eval_op_union e u k o s :
+Lemma step_correct2 e k o s a : scope e o -> no_where o = true ->
+  op_kf e k o = 0 -> kinv s -> qseteq (quads s) a -> step_ok e k o s a.
+Proof. intros. apply step_correct; auto. Qed.
+
+(* the switch is irrelevant to every write: it only enters through the
+   solutions of a WHERE clause (ModifyW evaluates its own) *)
+Lemma eval_op_union e u k o s : no_where o = true ->
   eval_op {| e_fe := e_fe e; e_union := u; e_lits := e_lits e; e_bnodes := e_bnodes e |} k o s = eval_op e k o s.
-Proof. reflexivity. Qed.
+Proof. destruct o; try discriminate; reflexivity. Qed.
 
 Lemma kf_from_cons e k o r : kf_from e k (o :: r) = 0 -> op_kf e k o = 0 /\ kf_from e (N.succ k) r = 0.
 Proof. simpl. destruct (op_kf e k o); auto. discriminate. Qed.
@@ -33,35 +46,193 @@ Proof. simpl. destruct (op_kf e k o); auto. discriminate. Qed.
 (* a request: the operations in order *)
 Theorem sequence_correct e ops : forall k s a,
   has_dataset e = true \/ forallb (fun o => negb (needs_dataset o)) ops = true ->
+  forallb no_where ops = true ->
   kf_from e k ops = 0 -> kinv s -> qseteq (quads s) a ->
   exists s', eval_from e k ops s = Ok s' /\ qseteq (quads s') (spec_from e k ops a) /\ kinv s'.
 Proof.
-  induction ops as [|o r IH]; intros k s a Hd Hkf Hk Ha.
+  induction ops as [|o r IH]; intros k s a Hd Hnw Hkf Hk Ha.
   - exists s. simpl. auto.
   - apply kf_from_cons in Hkf. destruct Hkf as [K1 K2].
+    simpl in Hnw. apply andb_true_iff in Hnw. destruct Hnw as [N1 N2].
     assert (Hd1 : scope e o).
     { destruct Hd as [Hd|Hd]; [left; auto|]. simpl in Hd. apply andb_true_iff in Hd. right. apply negb_true_iff. tauto. }
     assert (Hd2 : has_dataset e = true \/ forallb (fun o => negb (needs_dataset o)) r = true).
     { destruct Hd as [Hd|Hd]; auto. simpl in Hd. apply andb_true_iff in Hd. tauto. }
-    destruct (step_correct e k o s a Hd1 K1 Hk Ha) as [s1 [E1 [Q1 I1]]].
-    destruct (IH (N.succ k) s1 (spec_op e k o a) Hd2 K2 I1 Q1) as [s2 [E2 [Q2 I2]]].
+    destruct (step_correct e k o s a N1 Hd1 K1 Hk Ha) as [s1 [E1 [Q1 I1]]].
+    destruct (IH (N.succ k) s1 (spec_op e k o a) Hd2 N2 K2 I1 Q1) as [s2 [E2 [Q2 I2]]].
     exists s2. simpl. rewrite E1. simpl. auto.
 Qed.
 
-(* every graph that holds a quad is known to the store (Memory.add) *)
-Definition wf (c : case) : Prop := forall q, In q (c_quads c) -> In (snd q) (c_known c).
+(* ------------------------------------------------------------------ *)
+(* DELETE/INSERT ... WHERE with the WHERE clause evaluated by the model  *)
+
+Definition pos_nolabel (p : tpos) : bool := match p with PBnode _ => false | _ => true end.
+Definition tpat_nolabel (tp : tpat) : bool :=
+  let '(x, y, z) := tp in pos_nolabel x && pos_nolabel y && pos_nolabel z.
+Definition tmpl_nolabel (tm : option tmpl) : bool :=
+  match tm with
+  | Some t => forallb (fun b => forallb tpat_nolabel (snd b)) (blocks t)
+  | None => true
+  end.
+
+Lemma inst_pos_nolabel fr fr' mu p : pos_nolabel p = true -> inst_pos fr mu p = inst_pos fr' mu p.
+Proof. destruct p; simpl; auto; discriminate. Qed.
+
+Lemma fill_nolabel fr fr' mu ts : forallb tpat_nolabel ts = true -> fill fr mu ts = fill fr' mu ts.
+Proof.
+  intros H. unfold fill. apply flat_map_ext'. intros [[x y] z] Hin.
+  rewrite forallb_forall in H. specialize (H _ Hin). simpl in H.
+  apply andb_true_iff in H. destruct H as [H Hz]. apply andb_true_iff in H. destruct H as [Hx Hy].
+  unfold inst_tpat. rewrite (inst_pos_nolabel fr fr' mu x Hx), (inst_pos_nolabel fr fr' mu y Hy),
+    (inst_pos_nolabel fr fr' mu z Hz). reflexivity.
+Qed.
+
+Lemma s_quads_nolabel e sk k i i' dg tm mu : tmpl_nolabel (Some tm) = true ->
+  s_quads e sk k i dg tm mu = s_quads e sk k i' dg tm mu.
+Proof.
+  intros H. unfold s_quads. apply flat_map_ext'. intros b Hb. unfold tmpl_nolabel in H. rewrite forallb_forall in H.
+  destruct (s_target dg mu (fst b)); auto.
+  rewrite (fill_nolabel (sfresh k i) (sfresh k i') mu (snd b)); auto.
+Qed.
+
+Lemma s_all_nolabel_In e sk k dg tm om q : tmpl_nolabel tm = true ->
+  In q (s_all e sk k dg tm om) <->
+  exists t mu, tm = Some t /\ In mu om /\ In q (s_quads e sk k 0 dg t mu).
+Proof.
+  intros H. destruct tm as [t|]; simpl.
+  - rewrite in_flat_map. split.
+    + intros [im [Him Hq]]. exists t, (snd im). split; auto. split; [eapply enum_from_snd; eauto|].
+      rewrite (s_quads_nolabel e sk k 0 (fst im)); auto.
+    + intros [t' [mu [[= <-] [Hmu Hq]]]].
+      assert (X : forall n, exists im, In im (enum_from n om) /\ snd im = mu).
+      { clear - Hmu. induction om as [|x r IH]; [destruct Hmu|]. intros n. destruct Hmu as [->|Hmu].
+        - exists (n, mu). split; [left; auto|auto].
+        - destruct (IH Hmu (N.succ n)) as [im [H1 H2]]. exists im. split; [right; auto|auto]. }
+      destruct (X 0) as [im [H1 H2]]. exists im. split; auto. subst mu.
+      rewrite (s_quads_nolabel e sk k (fst im) 0); auto.
+  - split; [tauto|]. intros [t [mu [E _]]]. discriminate.
+Qed.
+
+Lemma s_all_perm e sk k dg tm om om' q : tmpl_nolabel tm = true -> Permutation om om' ->
+  In q (s_all e sk k dg tm om) <-> In q (s_all e sk k dg tm om').
+Proof.
+  intros H P. rewrite !s_all_nolabel_In by auto.
+  split; intros [t [mu [E [Hmu Hq]]]]; exists t, mu; split; auto; split; auto.
+  - eapply Permutation_in; eauto.
+  - eapply Permutation_in; [apply Permutation_sym|]; eauto.
+Qed.
+
+(* what makes a ModifyW operation fall under the theorems: the pattern is in the
+   fragment (BGP, Join, Union, GRAPH over them; accepted by C04's [frag]) *)
+Definition where_ok (p : Sparql.Algebra.alg) : Prop := walg p = true /\ forall names, Sparql.Agreement.frag names [] p = true.
+
+(* store hypotheses of C04's theorem: duplicate-free, no term is one of C04's
+   two boolean literals (ids 20, 21 - unused by this property's numbering) *)
+Definition store_ok (a : qset) : Prop := NoDup a /\ terms_nb a.
+
+(* T2: end to end.  The operation succeeds; the store afterwards is the 3.1.3
+   result for an enumeration [om] of the solution multiset of the WHERE pattern
+   over the prescribed query dataset, all solutions computed on the state
+   before the operation, deletions before insertions (the enumeration only
+   decides which fresh node a template label gets in which solution). *)
+Theorem modify_where e k s w ud un d i p : where_ok p -> store_ok (quads s) -> kinv s ->
+  scope e (ModifyW w ud un d i p) -> op_kf e k (ModifyW w ud un d i p) = 0 ->
+  let dg := match w with Some c => c | None => dflt e end in
+  exists s' om, eval_op e k (ModifyW w ud un d i p) s = Ok s' /\ kinv s'
+    /\ Permutation om (s_omega e w ud un p (quads s))
+    /\ forall q, In q (quads s') <->
+         (In q (quads s) /\ ~ In q (s_all e false k dg d om)) \/ In q (s_all e true k dg i om).
+Proof.
+  intros [W F] [Hn Hb] Hk Hs Hkf dg.
+  pose proof (where_solutions e k w ud un d i p (quads s) W F Hn Hb Hs Hkf) as P.
+  set (om := m_omega e w ud un p (quads s)) in *.
+  assert (Hs' : scope e (Modify w (negb (is_nil ud)) (negb (is_nil un)) d i om)).
+  { destruct Hs as [Hs|Hs]; [left; auto|right]. simpl in *.
+    repeat (apply orb_false_iff in Hs; destruct Hs as [Hs ?]).
+    repeat (apply orb_false_iff; split); auto. }
+  destruct (modify_ok e k w (negb (is_nil ud)) (negb (is_nil un)) d i om s (quads s) Hs' Hk)
+    as [s' [E [Q I]]]; [intros q; tauto|].
+  exists s', om. split; [|split; [auto|split; [auto|]]].
+  - simpl. simpl in E. fold om.
+    assert (X : negb (has_dataset e) && uses_graph p = false).
+    { destruct Hs as [Hs|Hs]; [rewrite Hs; reflexivity|]. simpl in Hs.
+      apply orb_false_iff in Hs. destruct Hs as [_ Hs]. rewrite Hs. apply andb_false_r. }
+    rewrite X. exact E.
+  - intros q. rewrite (Q q). simpl. fold dg. rewrite in_app_iff, qdiff_In. tauto.
+Qed.
+
+(* without blank-node labels in the templates the enumeration is immaterial:
+   the operation is exactly its transformer *)
+Theorem step_where e k s w ud un d i p : where_ok p -> store_ok (quads s) -> kinv s ->
+  scope e (ModifyW w ud un d i p) -> op_kf e k (ModifyW w ud un d i p) = 0 ->
+  tmpl_nolabel d = true -> tmpl_nolabel i = true ->
+  step_ok e k (ModifyW w ud un d i p) s (quads s).
+Proof.
+  intros Hw Hst Hk Hs Hkf Ld Li.
+  destruct (modify_where e k s w ud un d i p Hw Hst Hk Hs Hkf) as [s' [om [E [I [P Q]]]]].
+  exists s'. split; [auto|split; [|auto]].
+  intros q. rewrite (Q q). simpl. rewrite (dedup_id quad_eqb quad_eqb_spec (quads s)) by apply Hst.
+  rewrite in_app_iff, qdiff_In.
+  rewrite (s_all_perm e false k _ d om _ q Ld P), (s_all_perm e true k _ i om _ q Li P). tauto.
+Qed.
+
+(* well-formed cases: every graph that holds a quad is known to the store
+   (Memory.add); a WHERE clause evaluated by the model only in the first
+   operation of the request (there the store is the case's quad list itself),
+   in the fragment, over a duplicate-free store, templates without labels *)
+Definition op_where_wf (o : uop) : Prop :=
+  match o with
+  | ModifyW _ _ _ d i p => where_ok p /\ tmpl_nolabel d = true /\ tmpl_nolabel i = true
+  | Create false _ => False
+  | _ => True
+  end.
+
+Definition wf (c : case) : Prop :=
+  (forall q, In q (c_quads c) -> In (snd q) (c_known c))
+  /\ match c_ops c with
+     | [] => True
+     | o :: r => op_where_wf o /\ (no_where o = false -> store_ok (c_quads c)) /\ forallb no_where r = true
+     end.
 
 Lemma named_only_In l c : In c (named_only l) <-> In c l /\ c <> 0.
 Proof. unfold named_only. rewrite filter_In, negb_true_iff, N.eqb_neq. tauto. Qed.
 
+Theorem request_correct c : wf c -> kf c = 0 ->
+  has_dataset (c_env c) = true \/ forallb (fun o => negb (needs_dataset o)) (c_ops c) = true ->
+  exists s', eval_from (c_env c) 0 (c_ops c) (init_state c) = Ok s'
+    /\ qseteq (quads s') (spec_from (c_env c) 0 (c_ops c) (c_quads c)) /\ kinv s'.
+Proof.
+  intros [W1 W2] Hkf Hd. unfold kf in Hkf.
+  assert (K0 : kinv (init_state c)) by exact W1.
+  destruct (c_ops c) as [|o r] eqn:Eo.
+  - exists (init_state c). simpl. split; auto. split; auto. intros q; tauto.
+  - destruct W2 as [Ow [Os Nr]].
+    destruct (no_where o) eqn:No.
+    + apply sequence_correct; auto; [simpl; rewrite No, Nr; reflexivity|intros q; simpl; tauto].
+    + destruct o as [| | | |w usingd usingn del ins where_| | | | | |[|] c0]; try discriminate; [|destruct Ow].
+      destruct Ow as [Hw [Ld Li]].
+      apply kf_from_cons in Hkf. destruct Hkf as [K1 K2].
+      assert (Hs : scope (c_env c) (ModifyW w usingd usingn del ins where_)).
+      { destruct Hd as [Hd|Hd]; [left; auto|right]. simpl in Hd. apply andb_true_iff in Hd.
+        apply negb_true_iff. tauto. }
+      destruct (step_where (c_env c) 0 (init_state c) w usingd usingn del ins where_ Hw (Os eq_refl) K0 Hs K1 Ld Li)
+        as [s1 [E1 [Q1 I1]]].
+      assert (Hd2 : has_dataset (c_env c) = true \/ forallb (fun o => negb (needs_dataset o)) r = true).
+      { destruct Hd as [Hd|Hd]; auto. simpl in Hd. apply andb_true_iff in Hd. tauto. }
+      destruct (sequence_correct (c_env c) r (N.succ 0) s1 _ Hd2 Nr K2 I1 Q1) as [s2 [E2 [Q2 I2]]].
+      exists s2. split; [|split; auto].
+      change (eval_from (c_env c) 0 (ModifyW w usingd usingn del ins where_ :: r) (init_state c))
+        with (bind (eval_op (c_env c) 0 (ModifyW w usingd usingn del ins where_) (init_state c)) (eval_from (c_env c) (N.succ 0) r)).
+      rewrite E1. exact E2.
+Qed.
+
 Theorem spec_ok_model c : wf c -> kf c = 0 -> spec_ok c (model_obs c) = true.
 Proof.
-  intros W1 Hkf. unfold spec_ok, model_obs.
+  intros W Hkf. unfold spec_ok, model_obs.
   destruct (in_scope (c_env c) (c_ops c)) eqn:Hs.
   2:{ destruct (eval_from _ _ _ _); reflexivity. }
-  unfold in_scope in Hs. apply orb_true_iff in Hs.
-  destruct (sequence_correct (c_env c) (c_ops c) 0 (init_state c) (c_quads c)) as [s' [E [Q I]]]; auto.
-  { intros q; simpl; tauto. }
+  unfold in_scope in Hs. apply andb_true_iff in Hs. destruct Hs as [Hs _]. apply orb_true_iff in Hs.
+  destruct (request_correct c W Hkf Hs) as [s' [E [Q I]]].
   rewrite E.
   assert (F : forallb (fun x => N.eqb (snd x) 0 || memb N.eqb (snd x) (named_only (known s'))) (quads s') = true).
   { apply forallb_forall. intros q Hq. destruct (N.eqb_spec (snd q) 0); simpl; auto.
@@ -77,6 +248,8 @@ Definition op_graphs (e : env) (o : uop) (c : cid) : Prop :=
   | InsertData ts qs | DeleteData ts qs => c = dflt e \/ In c (map fst qs)
   | DeleteWhere tm om => exists i mu, In (c) (map snd (s_quads e false 0 i (dflt e) tm mu))
   | Modify w _ _ d i om => True
+  | ModifyW _ _ _ _ _ _ => True
+  | Create _ _ => False
   | Clear _ g | Drop _ g =>
       match g with GDefault => c = dflt e | GNamed => c <> dflt e | GAll => True | GIri x => c = x end
   | Add _ _ y => c = gd_cid e y
@@ -85,10 +258,10 @@ Definition op_graphs (e : env) (o : uop) (c : cid) : Prop :=
   end.
 
 Lemma spec_untouched_data e k o a c :
-  match o with Modify _ _ _ _ _ _ | DeleteWhere _ _ => False | _ => True end ->
+  match o with Modify _ _ _ _ _ _ | ModifyW _ _ _ _ _ _ | DeleteWhere _ _ => False | _ => True end ->
   ~ op_graphs e o c -> forall t, In (t, c) (spec_op e k o a) <-> In (t, c) a.
 Proof.
-  intros Hk Hn t. destruct o as [ts qs|ts qs|tm om|w ud un d i om|sl g|sl g|sl x y|sl x y|sl x y];
+  intros Hk Hn t. destruct o as [ts qs|ts qs|tm om|w ud un d i om|w ud un d i p|sl g|sl g|sl x y|sl x y|sl x y|sl c0];
     simpl in *; try tauto.
   - rewrite in_app_iff. unfold data_quads. rewrite in_app_iff, to_graph_In, in_flat_map. simpl.
     split; [|tauto]. intros [H|[[_ H]|[b [Hb H]]]]; auto; exfalso; apply Hn; auto.
@@ -155,6 +328,7 @@ Definition op_bounded (n : N) (o : uop) : Prop :=
   match o with
   | InsertData ts qs => triples_bounded n ts /\ forall b, In b qs -> triples_bounded n (snd b)
   | Modify _ _ _ _ (Some i) om => tmpl_bounded n i /\ omega_bounded n om
+  | ModifyW _ _ _ _ _ _ => False   (* not covered: the bound values are computed *)
   | _ => True
   end.
 
@@ -223,8 +397,8 @@ Theorem older_step e k o a : op_bounded (window k) o -> older (window k) a ->
 Proof.
   intros Hb Ho. pose proof (window_mono k) as Hm.
   assert (Ho' : older (window (k + 1)) a) by (eapply older_mono; eauto).
-  destruct o as [ts qs|ts qs|tm om|w ud un d i om|sl g|sl g|sl x y|sl x y|sl x y]; simpl;
-    intros q Hq t Ht.
+  destruct o as [ts qs|ts qs|tm om|w ud un d i om|w ud un d i p|sl g|sl g|sl x y|sl x y|sl x y|sl c0]; simpl;
+    intros q Hq t Ht; try (destruct Hb; fail).
   - apply in_app_iff in Hq. destruct Hq as [Hq|Hq]; [eapply Ho'; eauto|].
     destruct Hb as [B1 B2]. apply data_quads_In' in Hq.
     destruct Hq as [[_ Hq]|[b [Hb' [_ Hq]]]].
@@ -250,6 +424,7 @@ Proof.
   - destruct (N.eqb _ _); [eapply Ho'; eauto|].
     apply in_app_iff in Hq. destruct Hq as [Hq|Hq]; [apply drop_graph_In in Hq; eapply Ho'; [apply Hq|eauto]|].
     apply to_graph_In in Hq. destruct Hq as [Hq _]. apply graph_of_In in Hq. eapply (Ho' _ Hq). exact Ht.
+  - eapply Ho'; eauto.
 Qed.
 
 (* ------------------------------------------------------------------ *)
@@ -298,7 +473,7 @@ Section Readings.
     exists s', eval_op e k (InsertData ts qs) s = Ok s' /\ kinv s' /\
       forall q, In q (quads s') <-> In q a \/ In q (data_quads (dflt e) ts qs).
   Proof.
-    intros Hs Hf. destruct (step_correct e k _ s a Hs Hf Hk Ha) as [s' [E [Q I]]].
+    intros Hs Hf. destruct (step_correct2 e k _ s a Hs eq_refl Hf Hk Ha) as [s' [E [Q I]]].
     exists s'. split; [|split]; auto. intros q. rewrite (Q q). simpl. apply in_app_iff.
   Qed.
 
@@ -306,7 +481,7 @@ Section Readings.
     exists s', eval_op e k (DeleteData ts qs) s = Ok s' /\ kinv s' /\
       forall q, In q (quads s') <-> In q a /\ ~ In q (data_quads (dflt e) ts qs).
   Proof.
-    intros Hs Hf. destruct (step_correct e k _ s a Hs Hf Hk Ha) as [s' [E [Q I]]].
+    intros Hs Hf. destruct (step_correct2 e k _ s a Hs eq_refl Hf Hk Ha) as [s' [E [Q I]]].
     exists s'. split; [|split]; auto. intros q. rewrite (Q q). simpl. apply qdiff_In.
   Qed.
 
@@ -314,7 +489,7 @@ Section Readings.
     exists s', eval_op e k (DeleteWhere tm om) s = Ok s' /\ kinv s' /\
       forall q, In q (quads s') <-> In q a /\ ~ In q (s_all e false k (dflt e) (Some tm) om).
   Proof.
-    intros Hs Hf. destruct (step_correct e k _ s a Hs Hf Hk Ha) as [s' [E [Q I]]].
+    intros Hs Hf. destruct (step_correct2 e k _ s a Hs eq_refl Hf Hk Ha) as [s' [E [Q I]]].
     exists s'. split; [|split]; auto. intros q. rewrite (Q q). simpl. apply qdiff_In.
   Qed.
 
@@ -326,7 +501,7 @@ Section Readings.
       forall q, In q (quads s') <->
         (In q a /\ ~ In q (s_all e false k dg d om)) \/ In q (s_all e true k dg i om).
   Proof.
-    intros Hs Hf dg. destruct (step_correct e k _ s a Hs Hf Hk Ha) as [s' [E [Q I]]].
+    intros Hs Hf dg. destruct (step_correct2 e k _ s a Hs eq_refl Hf Hk Ha) as [s' [E [Q I]]].
     exists s'. split; [|split]; auto. intros q. rewrite (Q q). simpl. fold dg.
     rewrite in_app_iff, qdiff_In. tauto.
   Qed.
@@ -341,7 +516,7 @@ Section Readings.
                     | GIri c => snd q = c
                     end.
   Proof.
-    intros Hs Hf. destruct (step_correct e k _ s a Hs Hf Hk Ha) as [s' [E [Q I]]].
+    intros Hs Hf. destruct (step_correct2 e k _ s a Hs eq_refl Hf Hk Ha) as [s' [E [Q I]]].
     exists s'. split; [|split]; auto. intros q. rewrite (Q q). simpl. apply spec_clear_In.
   Qed.
 
@@ -355,7 +530,7 @@ Section Readings.
                     | GIri c => snd q = c
                     end.
   Proof.
-    intros Hs Hf. destruct (step_correct e k _ s a Hs Hf Hk Ha) as [s' [E [Q I]]].
+    intros Hs Hf. destruct (step_correct2 e k _ s a Hs eq_refl Hf Hk Ha) as [s' [E [Q I]]].
     exists s'. split; [|split]; auto. intros q. rewrite (Q q). simpl. apply spec_clear_In.
   Qed.
 
@@ -364,7 +539,7 @@ Section Readings.
       forall q, In q (quads s') <->
         In q a \/ (gd_cid e x <> gd_cid e y /\ snd q = gd_cid e y /\ In (fst q, gd_cid e x) a).
   Proof.
-    intros Hs Hf. destruct (step_correct e k _ s a Hs Hf Hk Ha) as [s' [E [Q I]]].
+    intros Hs Hf. destruct (step_correct2 e k _ s a Hs eq_refl Hf Hk Ha) as [s' [E [Q I]]].
     exists s'. split; [|split]; auto. intros q. rewrite (Q q). simpl.
     destruct (N.eqb_spec (gd_cid e x) (gd_cid e y)); [tauto|].
     rewrite in_app_iff, to_graph_In, graph_of_In. tauto.
@@ -376,7 +551,7 @@ Section Readings.
         if N.eqb (gd_cid e x) (gd_cid e y) then In q a
         else (In q a /\ snd q <> gd_cid e y) \/ (snd q = gd_cid e y /\ In (fst q, gd_cid e x) a).
   Proof.
-    intros Hs Hf. destruct (step_correct e k _ s a Hs Hf Hk Ha) as [s' [E [Q I]]].
+    intros Hs Hf. destruct (step_correct2 e k _ s a Hs eq_refl Hf Hk Ha) as [s' [E [Q I]]].
     exists s'. split; [|split]; auto. intros q. rewrite (Q q). simpl.
     destruct (N.eqb (gd_cid e x) (gd_cid e y)); [tauto|].
     rewrite in_app_iff, drop_graph_In, to_graph_In, graph_of_In. tauto.
@@ -389,7 +564,7 @@ Section Readings.
         else snd q <> gd_cid e x /\
              ((In q a /\ snd q <> gd_cid e y) \/ (snd q = gd_cid e y /\ In (fst q, gd_cid e x) a)).
   Proof.
-    intros Hs Hf. destruct (step_correct e k _ s a Hs Hf Hk Ha) as [s' [E [Q I]]].
+    intros Hs Hf. destruct (step_correct2 e k _ s a Hs eq_refl Hf Hk Ha) as [s' [E [Q I]]].
     exists s'. split; [|split]; auto. intros q. rewrite (Q q). simpl.
     destruct (N.eqb (gd_cid e x) (gd_cid e y)); [tauto|].
     rewrite drop_graph_In, in_app_iff, drop_graph_In, to_graph_In, graph_of_In. tauto.
